@@ -15,14 +15,14 @@ DumpCheck(e, f) == (Len(e.dump) = 0) \/ DumpOK(e.dump, f)
 \* effect of the line on the abstract state (tabs') and whether the observation is legal
 Step(e) ==
     CASE e.op = "reset"  -> tabs' = <<Empty>>
-      [] e.op = "set"    -> ISet(e.t, e.k, e.v)
-      [] e.op = "assign" -> IAssign(e.t, e.k, e.v)
+      [] e.op = "set"    -> ISet(e.t, e.k, [ty |-> e.ty, n |-> e.v])
+      [] e.op = "assign" -> IAssign(e.t, e.k, [ty |-> e.ty, n |-> e.v])
       [] e.op = "del"    -> IDelete(e.t, e.k)
       [] e.op = "copy"   -> ICopy(e.t)
       [] OTHER           -> IRead
 Legal(e) ==
     CASE e.op = "get" -> /\ e.ok = Has(e.t, e.k)
-                         /\ (Has(e.t, e.k) => e.v = Val(e.t, e.k))
+                         /\ (Has(e.t, e.k) => e.v = Val(e.t, e.k).n /\ e.ty = Val(e.t, e.k).ty)
       [] e.op = "len" -> e.n = Count(e.t)
       [] OTHER        -> TRUE
 
